@@ -726,6 +726,9 @@ enum Hostile {
     Nested,
     EntityRefs,
     Base64Text,
+    ManyAttributes,
+    NamespaceDecls,
+    EntityInAttrValue,
 }
 
 const ALL_POS: [Pos; 6] = [Pos::Prolog, Pos::RootAttrs, Pos::AfterRootStart, Pos::ChildAttrs, Pos::ChildContent, Pos::AfterRootEnd];
@@ -734,7 +737,7 @@ fn kinds_for(pos: Pos) -> &'static [Hostile] {
     use Hostile::*;
     match pos {
         Pos::Prolog => &[Whitespace, Comment, ManyComments, ProcessingInstruction, DoctypeEntity, ElementName, Text],
-        Pos::RootAttrs | Pos::ChildAttrs => &[AttrName, AttrValue, WhitespaceInTag],
+        Pos::RootAttrs | Pos::ChildAttrs => &[AttrName, AttrValue, WhitespaceInTag, ManyAttributes, NamespaceDecls, EntityInAttrValue],
         Pos::AfterRootStart => &[Whitespace, Comment, ManyComments, Text, Cdata, ProcessingInstruction, Nested, EntityRefs, ElementName],
         Pos::ChildContent => &[Base64Text, Whitespace, Comment, ManyComments, Cdata, EntityRefs, Nested],
         Pos::AfterRootEnd => &[Whitespace, Comment, ManyComments, Text, ProcessingInstruction, ElementName],
@@ -759,6 +762,9 @@ fn hostile_bytes(kind: Hostile) -> (&'static [u8], &'static [u8]) {
         Nested => (b"", b"<a>"),
         EntityRefs => (b"", b"&amp;&lt;"),
         Base64Text => (b"", b"QUJD\n"),
+        ManyAttributes => (b"", b" a=\"x\""),
+        NamespaceDecls => (b"", b" xmlns:p=\"urn:x\""),
+        EntityInAttrValue => (b" x=\"", b"&amp;&#65;"),
     }
 }
 
@@ -900,19 +906,19 @@ impl C09 {
 //------------ Scenario --------------------------------------------------------------------
 
 impl C09 {
-    fn run_inner(&self, kind: RunKind, ctx: &Arc<SimCtx>, counters: &mut Counters, out: &mut RunOut) -> Result<(), Violation> {
+    fn run_inner(&self, kind: RunKind, tier: Tier, ctx: &Arc<SimCtx>, counters: &mut Counters, out: &mut RunOut) -> Result<(), Violation> {
         match kind {
             RunKind::Sweep(i) => {
-                // hostile grid: doc kind (3) x position (6) x hostile kind (14, those applicable)
+                // hostile grid: doc kind (3) x position (6) x hostile kind (17, those applicable)
                 let doc_kind = i % 3;
                 let pos = ALL_POS[((i / 3) % 6) as usize];
                 let all = [
                     Hostile::Whitespace, Hostile::Comment, Hostile::ManyComments, Hostile::ProcessingInstruction,
                     Hostile::DoctypeEntity, Hostile::ElementName, Hostile::AttrName, Hostile::AttrValue,
                     Hostile::WhitespaceInTag, Hostile::Text, Hostile::Cdata, Hostile::Nested, Hostile::EntityRefs,
-                    Hostile::Base64Text,
+                    Hostile::Base64Text, Hostile::ManyAttributes, Hostile::NamespaceDecls, Hostile::EntityInAttrValue,
                 ];
-                let hk = all[((i / 18) % 14) as usize];
+                let hk = all[((i / 18) % 17) as usize];
                 if !kinds_for(pos).contains(&hk) {
                     return Ok(());
                 }
@@ -963,7 +969,21 @@ impl C09 {
                         (Doc::Notification(NotificationFile::new(gen_uuid(&mut t), serial, snap, deltas)), true)
                     } else {
                         let with_data = t.chance(7, 8);
-                        (gen_doc(&mut t, with_data), false)
+                        let mut doc = gen_doc(&mut t, with_data);
+                        if tier == Tier::Thorough && t.chance(1, 50) {
+                            // occasionally a much larger snapshot: up to 300
+                            // elements with objects up to 64 KiB
+                            let n = 1 + t.choose(300) as usize;
+                            let elements = (0..n)
+                                .map(|_| {
+                                    let len = if t.chance(1, 10) { t.choose(65536) as usize } else { t.choose(200) as usize };
+                                    let seed = t.choose(256) as u8;
+                                    PublishElement::new(gen_rsync(&mut t), Bytes::from((0..len).map(|i| seed.wrapping_add((i * 7) as u8)).collect::<Vec<u8>>()))
+                                })
+                                .collect();
+                            doc = Doc::Snapshot(Snapshot::new(gen_uuid(&mut t), gen_serial(&mut t), elements));
+                        }
+                        (doc, false)
                     }
                 };
                 ctx.ev(1, 0, || format!("document: {}", doc.summary()));
@@ -989,7 +1009,7 @@ impl C09 {
                         let kinds = kinds_for(pos);
                         let hk = kinds[ctx.choose(kinds.len() as u64) as usize];
                         let heavy = !matches!(doc, Doc::Notification(_)) && !matches!(pos, Pos::Prolog | Pos::RootAttrs);
-                        if !heavy || ctx.chance(1, 40) {
+                        if !heavy || ctx.chance(1, if tier == Tier::Thorough { 12 } else { 40 }) {
                             self.hostile_case(ctx, &doc, &bytes, pos, hk, counters, out)?;
                         }
                     }
@@ -1006,19 +1026,19 @@ impl Scenario for C09 {
     fn level(&self) -> &'static str { "exploration" }
 
     fn sweep_len(&self, _tier: Tier) -> u64 {
-        3 * 6 * 14
+        3 * 6 * 17
     }
 
     fn random_runs(&self, tier: Tier) -> u64 {
         match tier { Tier::Quick => 40_000, Tier::Thorough => 1_500_000 }
     }
 
-    fn run(&self, kind: RunKind, tape: Tape, log: bool) -> (RunOut, Tape) {
+    fn run(&self, kind: RunKind, tier: Tier, tape: Tape, log: bool) -> (RunOut, Tape) {
         let _ = crate::exec::take_panics();
         let ctx = Arc::new(SimCtx::new(tape, log, u64::MAX / 2));
         let mut out = RunOut::default();
         let mut counters = Counters::default();
-        let res = self.run_inner(kind, &ctx, &mut counters, &mut out);
+        let res = self.run_inner(kind, tier, &ctx, &mut counters, &mut out);
         out.violation = res.err();
         counters.merge(&ctx.counters.lock().unwrap());
         out.counters = counters;
@@ -1043,7 +1063,7 @@ impl Scenario for C09 {
          up to 1500 bytes, 300 sampled offsets beyond), class C (one-shot or sticky write error at EVERY \
          write call index up to 400 calls) or class D (the document taken over at a structural position \
          by an endless hostile run with the bytes-pulled monitor armed). The sweep walks document kind x \
-         position (6) x hostile kind (14) deterministically. evaluations = parses/writes executed; \
+         position (6) x hostile kind (17) deterministically. evaluations = parses/writes executed; \
          distinct = distinct hash of (document bytes or prefix, fault kind, fault offset, chunk size) \
          counted in a bitmap (lower bound); a run is non-trivial if a library writer or parser ran."
     }
